@@ -47,6 +47,8 @@ def deserialize_hml(ser: Slice, m: int) -> typing.Tuple[int, bitarray]:
         l = m.bit_length()
         n = ser.load_uint(l)
         s = bitarray(str(v) * n)
+    if n > m:
+        raise ValueError(f'hashmap label of {n} bits is longer than the {m} key bits that remain')
     return n, s
 
 
